@@ -37,6 +37,7 @@ type Profile struct {
 	MaxDocs      int  // soft cap on documents per collection
 	NoWindowBulk bool // bulk writes never carry skip/limit
 	MissingColl  int  // 1/MissingColl of the operations target a possibly missing collection (0 = alphabet choice only)
+	FaultRate    int  // 1/FaultRate of the operations run with one failing store call (0 = never)
 }
 
 func (p *Profile) pickKind(t *rapid.T) string {
@@ -285,6 +286,19 @@ func (p *Profile) Seed(t *rapid.T, s *Session, do func(cs.Op)) {
 
 // Draw draws the next operation in view of the model state.
 func (p *Profile) Draw(t *rapid.T, s *Session) cs.Op {
+	op := p.draw(t, s)
+	if p.FaultRate > 0 && rapid.IntRange(1, p.FaultRate).Draw(t, "with-fault") == 1 {
+		switch op.Kind {
+		case "close", "reopen", "storm", "export", "geninsert":
+		default:
+			// one store call of this operation fails: it must report an error and leave no trace
+			op.FaultAt = int64(rapid.SampledFrom([]int{1, 2, 3, 4, 5, 6, 8, 11, 15, 22, 35}).Draw(t, "fault-at"))
+		}
+	}
+	return op
+}
+
+func (p *Profile) draw(t *rapid.T, s *Session) cs.Op {
 	kind := p.pickKind(t)
 	uniq := int64(len(s.Ops))*8 + 1000
 	switch kind {
